@@ -13,7 +13,7 @@ func init() {
 	p := &propDef{
 		ID:      "C18",
 		Level:   "other",
-		Explain: "Structural necessary conditions of bounded, draining shutdown, decided per implementation / per path; sites are found by ROLE inside REGIONS (an entry plus the helpers, closures and methods it runs), not by the name of the function that happens to contain them. (D1) every repo implementation of proxy.Server.Shutdown(ctx) lets its ctx reach something that can bound it (a receive/select on ctx.Done(), or a call that is handed the context - repository callees are looked into, logging does not count); it runs no unbounded blocking primitive (grpc GracefulStop, WaitGroup.Wait of a long-lived WaitGroup, Cond.Wait) synchronously - called, deferred or inside a helper; the join of a local WaitGroup whose goroutines are themselves bounded is not such a wait - and it does not wait unconditionally (receive or select without a ctx.Done()/deadline case) on a channel that is signalled only after such a primitive returned in a goroutine, unless a forced stop (grpc Stop) precedes the wait; (D2) every Server.Shutdown invocation in the region of proxy.Shutdown receives a context from WithTimeout/WithDeadline(Background, <derived from the time.Duration parameter of proxy.Shutdown or from cfg.Proxy.ShutdownWait itself; values are followed through struct fields>), no cancel function created outside is handed (captured or passed) to the per-server goroutines, and every caller passes cfg.Proxy.ShutdownWait; (J1) for the go statement(s) whose goroutine performs the server Shutdown: wg.Add precedes it in the same iteration (or once with a computed count; in the function of the go or before every call of the helper containing it), Done runs on every way out of the goroutine, Wait follows on every path to return (possibly after the call of the helper) and no loop contains both the start of a server shutdown and the Wait, and no mutex is held where the Wait (or a helper that waits) is executed; a join over a channel is accepted when the region uses no WaitGroup; work handed to errgroup.Group.Go / WaitGroup.Go counts as a started goroutine whose Add/Done the group does; (L1) every Lock in packages proxy and proxy/tcp is released on every path to every return (Unlock called, deferred, in a deferred closure or in a helper; a pure acquire helper is judged at its call sites; mutexes are identified by the type/variable that holds them); (O1) in tcp.Server.Shutdown and what it runs synchronously - helpers, deferred calls, a callback parameter resolved to what Shutdown passes on that path, a method behind a small interface whose concrete type is visible, a function kept in a struct field - the elements of the collections of net.Listener are closed on every path before the wait on ctx.Done(), no element of the collections of net.Conn is closed before it - or ended in another way: CloseRead / CloseWrite, a deadline that is not computed from the context's own, also by a goroutine started there that does not first wait for the end of a context - and they are closed on every path after it; outside a loop, the select that waits has no case of a one-shot timer of its own (time.After / time.NewTimer with a duration not taken from ctx.Deadline) from which the closing of the connections is reached (collections are the struct fields of package proxy/tcp of such a collection type, in the server or in a small type it delegates to; each fact is decided in the function that holds the wait, otherwise at its call site one frame up, and so on up to Shutdown); (R1) the registry of running servers (a map of Server, or of a small record holding a Server, in package proxy, variable or field) is written only under a lock, every Serve call on a server in package proxy outside the Serve methods of composite servers is preceded on every path by a registration (in the function, in a helper, or before every call site), and every ListenAndServe* reaches such a call; (E1) the function handed to exit.Listen deregisters, sleeps the grace period (or skips it on a branch decided by the grace period itself), then calls proxy.Shutdown, in that order - each step directly or in a helper / local closure; (R3) proxy.Shutdown empties the registry inside the critical section that reads it (same lock hold, possibly in helpers called under it); (X1) package exit does not release its signal registration (signal.Stop/Reset/Ignore, directly or in a helper, not deferred) on a path that reaches the exit-handler call without a new signal.Notify. Not decided: wall-clock bounds (timing).",
+		Explain: "Structural necessary conditions of bounded, draining shutdown, decided per implementation / per path; sites are found by ROLE inside REGIONS (an entry plus the helpers, closures and methods it runs), not by the name of the function that happens to contain them. (D1) every repo implementation of proxy.Server.Shutdown(ctx) lets its ctx reach something that can bound it (a receive/select on ctx.Done(), or a call that is handed the context - repository callees are looked into, logging does not count); it runs no unbounded blocking primitive (grpc GracefulStop, WaitGroup.Wait of a long-lived WaitGroup, Cond.Wait) synchronously - called, deferred or inside a helper; the join of a local WaitGroup whose goroutines are themselves bounded is not such a wait - and it does not wait unconditionally (receive or select without a ctx.Done()/deadline case) on a channel that is signalled only after such a primitive returned in a goroutine, unless a forced stop (grpc Stop) precedes the wait; (D2) every Server.Shutdown invocation in the region of proxy.Shutdown receives a context from WithTimeout/WithDeadline(Background, <derived from the time.Duration parameter of proxy.Shutdown or from cfg.Proxy.ShutdownWait itself; values are followed through struct fields>), no cancel function created outside is handed (captured or passed) to the per-server goroutines, and every caller passes cfg.Proxy.ShutdownWait; (J1) for the go statement(s) whose goroutine performs the server Shutdown: wg.Add precedes it in the same iteration (or once with a computed count; in the function of the go or before every call of the helper containing it), Done runs on every way out of the goroutine, Wait follows on every path to return (possibly after the call of the helper) and no loop contains both the start of a server shutdown and the Wait, and no mutex is held where the Wait (or a helper that waits) is executed; a join over a channel is accepted when the region uses no WaitGroup; work handed to errgroup.Group.Go / WaitGroup.Go counts as a started goroutine whose Add/Done the group does; a go statement inside a per-server goroutine that hands the server's Shutdown on is not joined by the WaitGroup: the goroutine that starts it must, on every path, wait on a channel the inner goroutine always signals, with at most the end of a context as the alternative; (L1) every Lock in packages proxy and proxy/tcp is released on every path to every return (Unlock called, deferred, in a deferred closure or in a helper; a pure acquire helper is judged at its call sites; mutexes are identified by the type/variable that holds them); (O1) in tcp.Server.Shutdown and what it runs synchronously - helpers, deferred calls, a callback parameter resolved to what Shutdown passes on that path, a method behind a small interface whose concrete type is visible, a function kept in a struct field - the elements of the collections of net.Listener are closed on every path before the wait on ctx.Done(), no element of the collections of net.Conn is closed before it - or ended in another way: CloseRead / CloseWrite, a deadline that is not computed from the context's own, also by a goroutine started there that does not first wait for the end of a context (a plain wait on ctx.Done() or on a timer set to the context's deadline, or the select case chosen by it; a deadline derived from the context's own may pass through time.Time methods, helpers and a field it was parked in) - and they are closed on every path after it; outside a loop, the select that waits has no case of a one-shot timer of its own (time.After / time.NewTimer with a duration not taken from ctx.Deadline) from which the closing of the connections is reached without waiting for the end of the context again (collections are the struct fields of package proxy/tcp of such a collection type, in the server or in a small type it delegates to; each fact is decided in the function that holds the wait, otherwise at its call site one frame up, and so on up to Shutdown); (R1) the registry of running servers (a map of Server, or of a small record holding a Server, in package proxy, variable or field) is written only under a lock, every Serve call on a server in package proxy outside the Serve methods of composite servers is preceded on every path by a registration (in the function, in a helper, or before every call site), and every ListenAndServe* reaches such a call; (E1) the function handed to exit.Listen deregisters, sleeps the grace period (or skips it on a branch decided by the grace period itself), then calls proxy.Shutdown, in that order - each step directly or in a helper / local closure; (R3) proxy.Shutdown empties the registry inside the critical section that reads it (same lock hold, possibly in helpers called under it); (X1) package exit does not release its signal registration (signal.Stop/Reset/Ignore, directly or in a helper, not deferred) on a path that reaches the exit-handler call without a new signal.Notify. Not decided: wall-clock bounds (timing).",
 		Run:     runC18,
 		Trusted: []string{"net/http.Server.Shutdown honours its context", "context.WithTimeout cancels after the timeout", "grpc.Server.Stop forcibly closes open streams"},
 		Mutants: []mutant{
@@ -677,6 +677,22 @@ func runC18D2J1(c *Ctx) {
 		}
 	})
 
+	// a per-server goroutine may hand its server's Shutdown on to a goroutine of its own (so that it can give up when the
+	// context ends although the server ignores it): the inner go statement is no fan-out to be joined by the WaitGroup;
+	// the goroutine that starts it waits for it - or for the end of the context
+	nestedIn := func(fan fanOut) bool {
+		for _, o := range fans {
+			if o.goI == fan.goI {
+				continue
+			}
+			for _, b := range o.body {
+				if containsFn(c18SyncRegion(b, 3), fan.goI.Parent()) {
+					return true
+				}
+			}
+		}
+		return false
+	}
 	// the context of one server is not cancelled by another: a cancel function handed to a per-server goroutine (captured
 	// or passed) belongs to a context created outside it - the first server to finish cancels it for all the others
 	isCancel := func(v ssa.Value) bool {
@@ -702,6 +718,9 @@ func runC18D2J1(c *Ctx) {
 			if isCancel(a) {
 				shared = true
 			}
+		}
+		if shared && nestedIn(fan) && !c18InLoop(fan.goI) {
+			shared = false // the one goroutine a per-server goroutine hands its own server (and its own context) on to
 		}
 		c.check("C18.D2", fnKey(fan.goI.Parent())+"|no cancel function shared between the per-server goroutines", fan.goI.Pos(), !shared,
 			"a goroutine started per server captures the cancel function of a context created outside it: the first server that finishes its Shutdown cancels the context of all the others, whose in-flight work is then cut before the wait has elapsed")
@@ -828,6 +847,54 @@ func runC18D2J1(c *Ctx) {
 	for _, fan := range fans {
 		goI := fan.goI
 		key := "proxy.Shutdown"
+		if !fan.managed && nestedIn(fan) {
+			signals := func(mc *ssa.MakeChan) bool {
+				sig := func(j ssa.Instruction) bool {
+					if _, isGo := j.(*ssa.Go); isGo {
+						return false
+					}
+					hit := c18ChanRoots(chanOf(j))[mc]
+					if d, isDefer := j.(*ssa.Defer); isDefer && !hit {
+						for _, t := range c18Targets(&d.Call) {
+							if mustExec(t, func(k ssa.Instruction) bool { return c18ChanRoots(chanOf(k))[mc] }, 1) {
+								hit = true
+							}
+						}
+					}
+					return hit
+				}
+				for _, g := range fan.body {
+					if !mustExec(g, sig, 0) {
+						return false
+					}
+				}
+				return len(fan.body) > 0
+			}
+			joins := func(i ssa.Instruction) bool {
+				w, ok := c18WaitOf(i)
+				if !ok {
+					return false
+				}
+				joined := false
+				for _, ch := range w.Chans {
+					mine := false
+					for mc := range c18ChanRoots(ch) {
+						if signals(mc) {
+							mine = true
+						}
+					}
+					if mine {
+						joined = true
+					} else if !c18CtxEndChan(ch) {
+						return false
+					}
+				}
+				return joined
+			}
+			c.check("C18.J1", key+"|a goroutine that hands its server's Shutdown on waits for it or for the end of the context", goI.Pos(), c18FollowedBy(goI, joins, 0),
+				"a per-server goroutine starts another goroutine for the server's Shutdown(ctx) and does not wait for it (on a channel that goroutine always signals, with at most the end of a context as the alternative): its wg.Done() then tells proxy.Shutdown that the server is drained while the drain is still running, the process exits and in-flight work that would have finished within the wait is cut")
+			continue
+		}
 		// wg.Add before go: in the same iteration (or once for all with a computed count), in the function of the go
 		// statement or before every call of the helper that contains it
 		var okAdd func(at ssa.Instruction, depth int) bool
